@@ -471,7 +471,9 @@ class ClientSSM(SSM):
             else:
                 if _debug: ClientSSM._debug("    - more segments to send")
 
-                self.initialSequenceNumber = (apdu.apduSeq + 1) % 256
+                # keep the index of the first unacknowledged segment absolute, the
+                # sequence number in the ack is modulo 256
+                self.initialSequenceNumber += ((apdu.apduSeq - self.initialSequenceNumber) % 256) + 1
                 self.segmentRetryCount = 0
                 self.fill_window(self.initialSequenceNumber)
                 self.restart_timer(self.segmentTimeout)
@@ -1102,7 +1104,9 @@ class ServerSSM(SSM):
             else:
                 if _debug: ServerSSM._debug("    - more segments to send")
 
-                self.initialSequenceNumber = (apdu.apduSeq + 1) % 256
+                # keep the index of the first unacknowledged segment absolute, the
+                # sequence number in the ack is modulo 256
+                self.initialSequenceNumber += ((apdu.apduSeq - self.initialSequenceNumber) % 256) + 1
                 self.actualWindowSize = apdu.apduWin
                 self.segmentRetryCount = 0
                 self.fill_window(self.initialSequenceNumber)
